@@ -394,6 +394,19 @@ def gen_cases(seed, tier):
     rng5 = np.random.default_rng([seed, 7, 4])
     for i in range(16 if tier == "quick" else 500):
         single.append({"spec": gen_spec(rng5, tier, late_weights=True)})
+    # a corrupted datum (inf target) in one mini-batch of a data condition on network 0, a healthy condition on network 1:
+    # the configured optimizer is still applied in that step (network 0 turns non-finite, network 1 gets its regular update)
+    rng6 = np.random.default_rng([seed, 7, 5])
+    for i in range(4 if tier == "quick" else 60):
+        nd = int(rng6.integers(6, 10))
+        sp = {"seed": int(rng6.integers(0, 2**31 - 1)), "models": [_gen_model(rng6, "FCN"), _gen_model(rng6, str(rng6.choice(["FCN", "QRES"])))],
+              "params": [], "vals": [], "trainer": {}, "steps": int(rng6.integers(3, 7)), "reseed": False, "nonfinite_ok": True,
+              "opt": {"cls": "SGD", "lr": 0.01, "args": {}},
+              "conds": [{"kind": "data", "model": 0, "weight": 1.0, "n_data": nd, "data_seed": int(rng6.integers(0, 1000)), "batch": int(rng6.integers(2, 4)),
+                         "norm": 2, "root": 1.0, "full": False, "inf_row": int(rng6.integers(0, nd))},
+                        {"kind": "pinn", "model": 1, "weight": float(rng6.choice([0.5, 2.0])), "res": str(rng6.choice(["r_dirichlet", "r_source", "r_heat"])),
+                         "sampler": _gen_sampler(rng6, static=True)}]}
+        single.append({"spec": sp})
     # long runs (more than 1000 optimizer steps) with a scheduler frequency that does not divide 1000
     rng4 = np.random.default_rng([seed, 7, 3])
     for i in range(2 if tier == "quick" else 24):
@@ -446,6 +459,8 @@ def _tdiff(a, b):
     if a.numel() == 0:
         return 0.0
     d = (a.double() - b.double()).abs()
+    both_bad = ~torch.isfinite(a.double()) & ~torch.isfinite(b.double())      # e.g. NaN weights after a non-finite gradient, in
+    d = torch.where(both_bad, torch.zeros_like(d), d)                        # the reference loop AND through the Solver
     d = torch.where(torch.isnan(d), torch.full_like(d, float("inf")), d)
     return float(d.max())
 
@@ -548,7 +563,8 @@ def _judge(spec, steps, ref, real, res, mech, tag=""):
         if got is None:
             continue
         want = ref["traj"][s - 1]
-        move = max([_tdiff(a, b) for a, b in zip(want, ref["theta0"])] + [0.0])
+        # (tensors that turned non-finite in the reference do not widen the tolerance of the others)
+        move = max([_tdiff(a, b) for a, b in zip(want, ref["theta0"]) if bool(torch.isfinite(a).all())] + [0.0])
         moved = max(moved, move)
         tol = 1e-6 + 1e-4 * move
         for n, a, b in zip(names, want, got):
@@ -726,10 +742,12 @@ def run_case(case):
     # determinism self-check of the reference (two fresh reference worlds must agree exactly)
     ref = R.run(spec, steps)
     flat = [t for st in ref["traj"] for t in st]
-    if not all(bool(torch.isfinite(t).all()) for t in flat):
+    if not all(bool(torch.isfinite(t).all()) for t in flat) and not spec.get("nonfinite_ok"):
         C["rejected_nonfinite_reference"] = 1      # the generated problem diverges: nothing to compare
         return res
-    if case.get("selfcheck", True) and steps <= 3:
+    if spec.get("nonfinite_ok"):
+        C["runs_with_a_nonfinite_gradient_step"] = 1
+    if case.get("selfcheck", True) and steps <= 3 and not spec.get("nonfinite_ok"):
         ref2 = R.run(spec, steps)
         if H.maxdiff(ref["traj"][-1], ref2["traj"][-1]) != 0.0:
             raise Inconclusive("reference loop not reproducible for this spec")
